@@ -16,13 +16,13 @@ def _lfs(ctx):
 
 
 def run(ctx):
-    storehist.run_histories(ctx, ctx.scale(120, 2500), ctx.scale(30, 60), _lfs(ctx), prefix='C08')
-    tokedit.run(ctx, ctx.scale(80, 2000), ctx.scale(12, 20), _lfs(ctx), 'C08')
+    storehist.run_histories(ctx, ctx.scale(120, 2500), ctx.scale(30, 60), _lfs(ctx), prefix='C08', judge=('C08',))
+    tokedit.run(ctx, ctx.scale(80, 2000), ctx.scale(12, 20), _lfs(ctx), 'C08', judge=('C08',))
 
 
 def search(ctx, hints):
-    storehist.run_histories(ctx, ctx.scale(1200, 5000), 60, [2, 3, 4, 5, 10], with_model=False, prefix='C08')
-    tokedit.run(ctx, ctx.scale(800, 3000), 20, [2, 3, 4, 5, 10], 'C08', with_model=False)
+    storehist.run_histories(ctx, ctx.scale(1200, 5000), 60, [2, 3, 4, 5, 10], with_model=False, prefix='C08', judge=('C08',))
+    tokedit.run(ctx, ctx.scale(800, 3000), 20, [2, 3, 4, 5, 10], 'C08', with_model=False, judge=('C08',))
 
 
 def replay(ctx, data):
